@@ -1,1 +1,73 @@
-import BigtreeModel.Basic
+import BigtreeModel.Store
+import BigtreeModel.Generated.Tables
+import BigtreeProofs.Lemmas.StoreAssert
+/-!
+# C20 — switching off the optional assertion checks never changes valid behaviour (BaseNode / Node part)
+
+`assertions` is a parameter of every modelled setter (`Cfg.assertions`, the `if ASSERTIONS:` blocks).
+`guards_pure` is checked by the kernel against the guard skeleton that `harness/tables.py` re-extracts
+from the source on every run (`BigtreeModel/Generated/Tables.lean`).
+-/
+
+namespace C20
+open Store
+
+/-- an operation accepted with the checks on gives the identical result (store and outcome) with the
+checks off -/
+theorem assertions_off_same (nd : Bool) (s : Store) (op : Op)
+    (h : (step { assertions := true, node := nd } s op).2 = .ok) :
+    step { assertions := false, node := nd } s op = step { assertions := true, node := nd } s op :=
+  Store.step_off_same nd s op h
+
+/-- lifted to histories: if every call is accepted with the checks on, the whole trace (outcome and
+store after every call) is the same with the checks off -/
+theorem assertions_off_same_run (nd : Bool) (s : Store) (ops : List Op)
+    (h : AllOk { assertions := true, node := nd } s ops) :
+    trace { assertions := false, node := nd } s ops = trace { assertions := true, node := nd } s ops ∧
+    run { assertions := false, node := nd } s ops = run { assertions := true, node := nd } s ops :=
+  ⟨Store.trace_off_same nd ops s h, Store.run_off_same nd ops s h⟩
+
+/-- turning the checks off only removes rejections -/
+theorem off_only_removes_rejections (nd : Bool) (s : Store) (op : Op)
+    (h : (step { assertions := false, node := nd } s op).2 = .rej) :
+    (step { assertions := true, node := nd } s op).2 = .rej := by
+  cases ho : (step { assertions := true, node := nd } s op).2 with
+  | rej => rfl
+  | ok => rw [assertions_off_same nd s op ho, ho] at h; cases h
+
+def demoOps : List Op :=
+  [.setChildren 0 [1, 2, 3] .none, .setParent 3 (some 1) .none, .extend 4 [2, 0] .none 0, .sort 4 [1, 0, 0, 0, 0] false]
+example : AllOk { assertions := true, node := true } (init 5 (fun i => [Char.ofNat (97 + i)]) ['/']) demoOps := by
+  simp only [AllOk, demoOps]; decide
+-- a call the checks refuse is (wrongly, but as documented) accepted without them: the hypothesis matters
+example : (step { assertions := true, node := false } (init 2 (fun _ => []) ['/']) (.setParent 0 (some 0) .none)).2 = .rej
+    ∧ (step { assertions := false, node := false } (init 2 (fun _ => []) ['/']) (.setParent 0 (some 0) .none)).2 = .ok := by
+  decide
+
+/-! ## the guard skeleton of the source -/
+
+def hasSub (p : List Char) : List Char → Bool
+  | [] => p.isEmpty
+  | c :: cs => p.isPrefixOf (c :: cs) || hasSub p cs
+
+/-- the call's name contains "check" -/
+def isCheckName (s : String) : Bool := hasSub "check".toList s.toList
+
+/-- the six guarded sites the stores model (BaseNode, BinaryNode, DAGNode: parent(s) and children setters) -/
+def modelledSites : List String :=
+  ["bigtree.node.basenode.BaseNode.children", "bigtree.node.basenode.BaseNode.parent",
+   "bigtree.node.binarynode.BinaryNode.children", "bigtree.node.binarynode.BinaryNode.parent",
+   "bigtree.node.dagnode.DAGNode.children", "bigtree.node.dagnode.DAGNode.parents"]
+
+/-- The checks are pure guards: every `if ASSERTIONS:` block of the package consists only of bare calls
+whose name contains "check" (no other statement, no `else`), `ASSERTIONS` is read nowhere else, the check
+functions store to nothing that is not local and call no mutator on a non-local, and the guarded sites
+are exactly the six setters that the stores model. -/
+theorem guards_pure :
+    (Generated.guardBlocks.all fun b => b.2.1.all isCheckName && b.2.2.isEmpty) = true ∧
+    Generated.assertionsOtherReads = [] ∧
+    (Generated.checkFunctions.all fun b => b.2.1.isEmpty && b.2.2.isEmpty) = true ∧
+    Generated.guardBlocks.map (·.1) = modelledSites ∧
+    (Generated.guardBlocks.all fun b => !b.2.1.isEmpty) = true := by decide
+
+end C20
